@@ -15,6 +15,17 @@ CLAIMED = {
   'design': '3 (C08)',
  },
 }
+CLAIMED['C10'] = {
+  'text': 'Defaults: the compile-time literal check of every IR primitive type (check of Int32/UInt32/Int64/UInt64, Float32/Float64, '
+          'String, Boolean, Bytes, Void) is proved equal to the acceptance rule of the language reference, and lemmas over these '
+          'specifications and the (C08-proved) runtime validators show that an accepted literal is valid for the validator the '
+          'python_types backend constructs for the type (Int, Float, String, Boolean proved for all parameters and literals; Bytes '
+          'and Timestamp are listed known findings). Example computation is not under contract yet.',
+  'note': 'Trusted: PyVC translator, closed-world value universe, regex engine as uninterpreted predicate (whole-string match '
+          'defined as match of \\A(?:p)\\Z), the relation rt(P,T) between an IR type and the validator text emitted for it '
+          '(generator not yet under contract), pprint/eval of literals (axiom PP). Bounded: native oracle comparison on sampled inputs.',
+  'design': '3 (C10)',
+}
 NOT_YET = {}
 NA = {
  'C09': 'property of emitted Python source when imported; no contract on an emitting function can express the semantics of its output text',
